@@ -48,12 +48,13 @@ type C11Mon struct {
 	withdrawn map[string]*big.Int
 	penalty   map[string]*big.Int
 	unstakes  map[string][]unstakeRec
-	lag       map[string]int // validator -> consecutive blocks in which its own record disagreed with the delegation records
+	bounded0  map[string]*big.Int // delegator -> withdrawable amount the history started with
+	lag       map[string]int      // validator -> consecutive blocks in which its own record disagreed with the delegation records
 	init      bool
 }
 
 func NewC11() *C11Mon {
-	return &C11Mon{staked: map[string]*big.Int{}, withdrawn: map[string]*big.Int{}, penalty: map[string]*big.Int{}, unstakes: map[string][]unstakeRec{}, lag: map[string]int{}}
+	return &C11Mon{staked: map[string]*big.Int{}, withdrawn: map[string]*big.Int{}, penalty: map[string]*big.Int{}, bounded0: map[string]*big.Int{}, unstakes: map[string][]unstakeRec{}, lag: map[string]int{}}
 }
 
 func addTo(m map[string]*big.Int, k string, v *big.Int) {
@@ -78,6 +79,9 @@ func (m *C11Mon) OnBlock(blk *hist.Block) []Finding {
 		for k := range blk.Prev {
 			if strings.HasPrefix(k, "st__d_e_") {
 				addTo(m.staked, k[8:], amountAt(blk.Prev, k))
+			}
+			if strings.HasPrefix(k, "st__d_b_") {
+				addTo(m.bounded0, k[8:], amountAt(blk.Prev, k))
 			}
 		}
 	}
@@ -128,7 +132,7 @@ func (m *C11Mon) OnBlock(blk *hist.Block) []Finding {
 		}
 	}
 	for k := range blk.Cur {
-		if strings.HasPrefix(k, "st__d_e_") {
+		if strings.HasPrefix(k, "st__d_e_") || strings.HasPrefix(k, "st__d_b_") {
 			delegs[k[8:]] = true
 		}
 	}
@@ -146,13 +150,37 @@ func (m *C11Mon) OnBlock(blk *hist.Block) []Finding {
 	}
 	// the validator's recorded stake equals the sum of its delegators' locked amounts
 	sum := map[string]*big.Int{}
+	perDeleg := map[string]*big.Int{}
 	for k := range blk.Cur {
 		if strings.HasPrefix(k, "st__e_") {
 			rest := k[6:]
 			i := strings.Index(rest, "_")
 			if i > 0 {
 				addTo(sum, rest[:i], amountAt(blk.Cur, k))
+				addTo(perDeleg, rest[i+1:], amountAt(blk.Cur, k))
 			}
+		}
+	}
+	// ... and a delegator's locked amount is what it has locked with its validators, taken together
+	var ds []string
+	for d := range delegs {
+		ds = append(ds, d)
+	}
+	sort.Strings(ds)
+	for _, d := range ds {
+		if e := amountAt(blk.Cur, "st__d_e_"+d); e.Cmp(get(perDeleg, d)) != 0 {
+			out = append(out, Finding{"C11", "C11/delegator-locked-vs-validators", fmt.Sprintf("block %d: delegator %s's locked amount is recorded as %s, the amounts it has locked with its validators add up to %s", blk.H, d, e, get(perDeleg, d))})
+		}
+		// what the records call withdrawable has been unstaked and has matured
+		matured := new(big.Int).Set(get(m.bounded0, d))
+		for _, u := range m.unstakes[d] {
+			if u.mature <= blk.H {
+				matured.Add(matured, u.amt)
+			}
+		}
+		have := new(big.Int).Add(amountAt(blk.Cur, "st__d_b_"+d), get(m.withdrawn, d))
+		if have.Cmp(matured) > 0 {
+			out = append(out, Finding{"C11", "C11/withdrawable/before-maturity", fmt.Sprintf("block %d: %s has withdrawn %s OLT and the records call another %s withdrawable, but only %s OLT of its unstakes have reached unstake height + maturity (%d) by this block", blk.H, d, get(m.withdrawn, d), amountAt(blk.Cur, "st__d_b_"+d), matured, matLoose)})
 		}
 	}
 	var vs []string
